@@ -356,17 +356,28 @@ def ctx678(ctx: Ctx) -> None:
         else:
             ctx.R.fail("CTX-6", mod, el, f"CPython {v}: the recogniser expects wrapper name {inner_lit}, free variables {sorted(fv_lits)} and __wrapped__; contextlib has {sorted(names)}, {sorted(free)}, setters {CL[v]['wrapped_setters']}",
                        construct=f"{v}: _exit_wrapper recogniser")
-    # the cells read are the ones named
-    idxs = {norm(s.targets[0]): norm(s.value) for s in ast.walk(el) if isinstance(s, ast.Assign) and "co_freevars.index(" in norm(s.value)}
-    if idxs.get("args_idx", "").endswith("index('args')") and idxs.get("kwds_idx", "").endswith("index('kwds')"):
-        txt = norm(el)
-        if f"{cb_v}.__closure__[args_idx].cell_contents" in txt and f"{cb_v}.__closure__[kwds_idx].cell_contents" in txt \
-                and txt.index("__closure__[args_idx]") < txt.index("__closure__[kwds_idx]"):
-            ctx.R.ok("CTX-6", "positional arguments are read from the 'args' cell and keyword arguments from the 'kwds' cell, in that order")
+    # the cells read are the ones named (the lookup may live in a nested helper)
+    idxs = {norm(a.targets[0]): norm(a.value) for a in ast.walk(g) if isinstance(a, ast.Assign) and "co_freevars.index(" in norm(a.value)}
+    by_name = {v.split("index(")[-1].rstrip(")").strip("'\""): k for k, v in idxs.items()}
+    if "args" in by_name and "kwds" in by_name:
+        fcalls = [c for c in ast.walk(g) if isinstance(c, ast.Call) and norm(c.func) == "format_funcargs" and len(c.args) == 2]
+        cellargs = [c for c in fcalls if "cell_contents" in norm(c.args[0])]
+        if len(cellargs) == 1:
+            a0, a1 = norm(cellargs[0].args[0]), norm(cellargs[0].args[1])
+            if f"[{by_name['args']}].cell_contents" in a0 and f"[{by_name['kwds']}].cell_contents" in a1:
+                ctx.R.ok("CTX-6", "positional arguments are read from the 'args' cell and keyword arguments from the 'kwds' cell, in that order")
+            elif f"[{by_name['kwds']}].cell_contents" in a0 and f"[{by_name['args']}].cell_contents" in a1:
+                ctx.R.fail("CTX-6", mod, cellargs[0], "format_funcargs receives the 'kwds' cell as positional arguments and the 'args' cell as keyword arguments", construct="closure cells order")
+            else:
+                ctx.R.undecided("CTX-6", "cannot match the closure cells passed to format_funcargs")
         else:
-            ctx.R.fail("CTX-6", mod, el, "format_funcargs must receive (args cell, kwds cell) in that order", construct="closure cells order")
+            ctx.R.undecided("CTX-6", "call of format_funcargs on closure cells not found")
     else:
-        ctx.R.fail("CTX-6", mod, el, "closure cells must be located by the names 'args' and 'kwds'", construct="closure cell lookup")
+        lits2 = {n_.value for n_ in ast.walk(g) if isinstance(n_, ast.Constant) and isinstance(n_.value, str)}
+        if "args" in lits2 and "kwds" in lits2:
+            ctx.R.undecided("CTX-6", "closure cells are located in an unrecognised way")
+        else:
+            ctx.R.fail("CTX-6", mod, el, "closure cells must be located by the names 'args' and 'kwds' (contextlib's free variables)", construct="closure cell lookup")
     # --- CTX-8 polarity and child construction
     cc = [c for c in ast.walk(loop) if isinstance(c, ast.Call) and norm(c.func) == "Context"]
     clones = [c for c in ast.walk(loop) if isinstance(c, ast.Call) and norm(c.func) in ("replace", "dataclasses.replace") and c.args and norm(c.args[0]) == cv]
